@@ -10,6 +10,7 @@ S5  constant-filled vectors returned by an expression arm are never sized by a T
 S4  cross-reference: rows of a join are truncated to their own element width (C13-J6), else the value is wider than its type
 S3  the circuit is built from the wires of the function body: outputs = panic record ++ wires returned by the body (C02-P5 for the
     record), and the input parties handed to the builder are the ones collected in S1
+S8  cross-reference: array outputs are decoded with the element count of the type (C09-L7)
 """
 from .. import mir
 from ..core import AnchorMissing, Finding, RuleResult
@@ -355,5 +356,17 @@ def rule_s7(ctx):
     return res
 
 
+def rule_s8(ctx):
+    """Cross-reference: outputs decode to the declared array length (C09-L7)."""
+    from . import C09
+    res = RuleResult("S8", "array outputs are decoded with the element count of the type (cross-reference to C09-L7)")
+    l7 = C09.rule_l7(ctx)
+    for x in l7.findings:
+        res.bad(Finding("S8", x.fn, x.site, x.message, x.span))
+    if not l7.findings:
+        res.ok({"verdict": "C09-L7 holds"})
+    return res
+
+
 def run(ctx):
-    return ctx.run_rules([rule_s1, rule_s2, rule_s3, rule_s4, rule_s5, rule_s6, rule_s7])
+    return ctx.run_rules([rule_s1, rule_s2, rule_s3, rule_s4, rule_s5, rule_s6, rule_s7, rule_s8])
